@@ -46,6 +46,9 @@ func modePipe(n int, long bool) {
 		case 4:
 			b.dup = true
 			b.unsolic = 2
+		case 5:
+			b.stranger = true
+			b.delay = 30 * time.Millisecond
 		}
 		return b
 	}
@@ -246,6 +249,10 @@ func modeFallback(n int) {
 		if proto == "udp" {
 			b.tc = u == "tc"
 			b.drop = u == "drop"
+			if u == "ok" && (h>>24)%3 == 0 { // somebody else's datagram with the query's ID arrives before the server's reply
+				b.stranger = true
+				b.delay = 30 * time.Millisecond
+			}
 			if b.tc { // a truncated reply may carry any rcode (e.g. NXDOMAIN whose authority section did not fit)
 				b.rcode = []int{0, 0, 2, 3, 5}[(h>>4)%5]
 				b.hdronly = (h>>20)%4 == 0 // ... and may be nothing but the 12-octet header
